@@ -5,12 +5,15 @@ use jbonsai::mlpg_adjust::MlpgAdjust;
 use jbonsai::model::voice::window::{Window, Windows};
 use jbonsai::model::{MeanVari, ModelStream, StreamParameter};
 
-pub const WSETS: [&[&[f64]]; 5] = [
+pub const WSETS: [&[&[f64]]; 7] = [
     &[&[1.0]],
     &[&[1.0], &[-0.5, 0.0, 0.5]],
     &[&[1.0], &[-0.5, 0.0, 0.5], &[1.0, -2.0, 1.0]],
     &[&[1.0], &[-0.2, -0.1, 0.0, 0.1, 0.2], &[0.285714, -0.142857, -0.285714, -0.142857, 0.285714]],
     &[&[1.0], &[-1.0, 1.0, 0.0], &[0.25, -0.5, 0.25]],
+    // window sets whose widest window is not the last one (seeded change C01g: band width from the last window)
+    &[&[1.0], &[-0.2, -0.1, 0.0, 0.1, 0.2], &[1.0, -2.0, 1.0]],
+    &[&[1.0], &[-0.2, -0.1, 0.0, 0.1, 0.2]],
 ];
 
 pub struct StreamCase {
